@@ -520,3 +520,186 @@ def gen_queries(seed, n, pagesize=1024):
         lines.append("drop 3")
         lines.append("close")
     return lines
+
+
+# ---- C06: rollbacks, failed calls, read-only use ----------------------------------------------
+def gen_c06(seed, n, pagesize=1024):
+    """histories with large rolled-back transactions (incl. bucket deletes), every mutator through
+    read-only handles, and the file hashed before / after"""
+    lines = []
+    for c in range(n):
+        g = HistGen(seed * 7919 + c, {"p_drop": 0.0, "p_reopen": 0.0, "txs": 1, "ops": 120, "families": ["deep", "tiny", "short"], "p_bucket_ops": 0.25, "pagesize": pagesize, "file": False})
+        r = g.rng
+        g.header("c6-%d" % c)
+        # a committed base
+        g.write_tx(r.randrange(40, 120))
+        g.emit("fhash")
+        for round_ in range(r.randrange(2, 5)):
+            kind = r.random()
+            if kind < 0.5:
+                # a (large) transaction that is rolled back
+                g.p["p_drop"] = 1.0
+                g.p["p_bucket_ops"] = r.choice([0.1, 0.5])
+                g.write_tx(r.randrange(20, 150))
+                g.emit("fhash")
+                g.verify()
+                g.emit("fhash")
+            elif kind < 0.75:
+                # read-only transaction: every mutator must fail with ReadOnlyTx and change nothing
+                t = g.next_tx
+                g.next_tx += 1
+                g.emit("begin %d r" % t)
+                paths = []
+
+                def walk(b, p):
+                    for k, v in b.items.items():
+                        if isinstance(v, Shadow):
+                            paths.append(p + (k,))
+                            walk(v, p + (k,))
+
+                walk(g.committed, ())
+                g.emit("mkb %d %d 0 %s" % (t, g.next_h, hx(b"ro-new")))
+                g.emit("gocb %d %d 0 %s" % (t, g.next_h + 1, hx(b"ro-new")))
+                g.emit("delb %d 0 %s" % (t, hx(paths[0][0] if paths else b"none")))
+                g.next_h += 2
+                for p in r.sample(paths, min(3, len(paths))):
+                    hp = 0
+                    for name in p:
+                        h = g.next_h
+                        g.next_h += 1
+                        g.emit("getb %d %d %d %s" % (t, h, hp, hx(name)))
+                        hp = h
+                    b = g.committed.bucket(p)
+                    ks = list(b.items.keys())
+                    k = r.choice(ks) if ks else b"k"
+                    g.emit("put %d %d %s %s" % (t, hp, hx(k), hx(b"ro")))
+                    g.emit("put %d %d %s %s" % (t, hp, hx(b"ro-newkey"), hx(b"ro")))
+                    g.emit("del %d %d %s" % (t, hp, hx(k)))
+                    g.emit("mkb %d %d %d %s" % (t, g.next_h, hp, hx(b"ro-b")))
+                    g.emit("gocb %d %d %d %s" % (t, g.next_h + 1, hp, hx(k)))
+                    g.emit("delb %d %d %s" % (t, hp, hx(k)))
+                    g.next_h += 2
+                    g.emit("scan %d %d" % (t, hp))
+                    g.emit("nextint %d %d" % (t, hp))
+                g.emit("dump %d" % t)
+                g.emit(r.choice(["commit %d" % t, "drop %d" % t]))
+                g.emit("fhash")
+            else:
+                g.emit("reopen")
+                g.emit("fhash")
+                g.verify()
+                g.emit("fhash")
+            # a committed transaction in between: later commits behave as if nothing had happened
+            if r.random() < 0.6:
+                g.p["p_drop"] = 0.0
+                g.write_tx(r.randrange(5, 60))
+                g.emit("file")
+                g.emit("fhash")
+                g.verify()
+        g.emit("dbcheck")
+        g.emit("close")
+        lines += g.lines
+    return lines
+
+
+# ---- C03: long-lived readers ------------------------------------------------------------------
+def gen_c03(seed, n, k_readers=4, pagesize=1024, numpages=12000):
+    """single-threaded interleavings of up to k simultaneous readers with committing and
+    rolling-back writers over update/delete heavy workloads; every open reader is re-dumped in full
+    after every step.  The file is pre-sized so that no commit has to grow it while a reader is
+    open on this thread (the documented self-deadlock)."""
+    lines = []
+    for c in range(n):
+        g = HistGen(seed * 104729 + c, {"p_drop": 0.2, "p_reopen": 0.0, "txs": 1, "families": ["deep", "tiny"], "p_bucket_ops": 0.12, "p_delete": 0.4, "p_reads": 0.05, "pagesize": pagesize, "numpages": numpages, "file": False, "big_values": False})
+        r = g.rng
+        g.header("c3-%d" % c)
+        g.write_tx(r.randrange(30, 80))
+        readers = []
+        for step in range(r.randrange(8, 20)):
+            x = r.random()
+            if x < 0.3 and len(readers) < k_readers:
+                t = g.next_tx
+                g.next_tx += 1
+                g.emit("begin %d r" % t)
+                readers.append(t)
+            elif x < 0.45 and readers:
+                t = readers.pop(r.randrange(len(readers)))
+                g.emit("drop %d" % t)
+            else:
+                g.write_tx(r.randrange(5, 50))
+            for t in readers:
+                g.emit("dump %d" % t)
+        for t in readers:
+            g.emit("dump %d" % t)
+            g.emit("drop %d" % t)
+        g.emit("file")
+        g.emit("dbcheck")
+        g.emit("close")
+        lines += g.lines
+    return lines
+
+
+# ---- C16: the same history under many configurations ------------------------------------------
+def reconfigure(hist, cfgline, suffix, keep_file=True):
+    out = []
+    for l in hist:
+        if l.startswith("hist "):
+            out.append(l + suffix)
+        elif l.startswith("cfg "):
+            out.append(cfgline)
+        elif l == "file" and not keep_file:
+            continue
+        else:
+            out.append(l)
+    return out
+
+
+def gen_c16(seed, nbase, configs):
+    base = []
+    for i in range(nbase):
+        g = HistGen(seed * 15485863 + i, {"families": ["deep", "tiny", "short", "huge"], "txs": 5, "ops": 50, "p_reopen": 0.2, "p_dbcheck": 0.5})
+        base.append(g.history("c16-%d" % i))
+    lines = []
+    for (ps, np_, strict, pop) in configs:
+        cfgline = "cfg pagesize=%d numpages=%d strict=%d populate=%d" % (ps, np_, strict, pop)
+        for h in base:
+            lines += reconfigure(h, cfgline, "-ps%d-np%d-s%d-m%d" % (ps, np_, strict, pop), keep_file=ps <= 16384)
+    return lines
+
+
+def gen_growth(seed, n):
+    """files created at the minimum size that must grow through several 8 MiB extension steps"""
+    lines = []
+    r = random.Random(seed)
+    for c in range(n):
+        ps = r.choice([65536, 1048576, 16384])
+        lines.append("hist grow%d-ps%d" % (c, ps))
+        lines.append("cfg pagesize=%d numpages=4 strict=%d populate=%d" % (ps, r.randrange(2), r.randrange(2)))
+        lines.append("open")
+        t = 1
+        total = 0
+        keys = []
+        target = 30 * 1024 * 1024
+        while total < target:
+            lines.append("begin %d w" % t)
+            lines.append("gocb %d 1 0 %s" % (t, hx(b"g")))
+            for _ in range(r.randrange(1, 6)):
+                k = b"g%06d" % r.randrange(0, 100000)
+                vlen = r.choice([ps // 2, ps, ps * 2 + 17, 100])
+                lines.append("put %d 1 %s %s" % (t, hx(k), hx(bytes([r.randrange(256)]) * min(vlen, 300000))))
+                total += min(vlen, 300000) + ps
+                keys.append(k)
+            lines.append("commit %d" % t)
+            t += 1
+            if r.random() < 0.2:
+                lines.append("begin %d r" % t)
+                lines.append("dump %d" % t)
+                lines.append("drop %d" % t)
+                t += 1
+        lines.append("dbcheck")
+        lines.append("reopen")
+        lines.append("begin %d r" % t)
+        lines.append("dump %d" % t)
+        lines.append("drop %d" % t)
+        lines.append("close")
+    return lines
